@@ -13,9 +13,10 @@ from harness import corr_world as cw
 from harness import worlds
 
 PROP = "C17"
-LEAN_MODULE = "Ztr.Props.C17"
+LEAN_MODULE = "Ztr.Props.C17Doc"
+LEAN_DEPS = ["Ztr.Props.C17"]
 THEOREMS = ["Ztr.Xml.sanitize_xmlChar", "Ztr.Xml.escAttr_ok", "Ztr.Xml.escText_ok", "Ztr.Xml.C17_wellformed",
-            "Ztr.Xml.C17_each_once", "Ztr.Xml.C17_counts", "Ztr.Xml.C17_subtest_name"]
+            "Ztr.Xml.C17_each_once", "Ztr.Xml.C17_counts", "Ztr.Xml.C17_subtest_name", "Ztr.Xml.C17_doctest_name"]
 RULE = ("histories of 1-12 result events (success / failure / error) for unittest cases, failing subtests and "
         "StartUpFailures over several classes, with exception messages and subtest descriptions drawn from every class "
         "of code point (C0/C1 controls, NUL, lone surrogates, non-characters U+FFFE/FFFF, astral, '<&>\"\\'', ']]>', CR/LF/"
@@ -72,6 +73,10 @@ def run_direct(ctx, hist, idx):
             elif o[0] == "sub":
                 parent = make_test(o[1], o[2], o[3])
                 test = unittest.case._SubTest(parent, o[4], {})
+            elif o[0] == "doctest":
+                import doctest
+                dt = doctest.DocTestParser().get_doctest(">>> 1\n1\n", {}, o[1], "some_file.py", 0)
+                test = doctest.DocTestCase(dt)
             else:
                 test = StartUpFailure(types.SimpleNamespace(post_mortem=False), o[1], None)
             exc_info = None
@@ -131,6 +136,10 @@ def statement_check(hist, files):
         o = ev["obj"]
         if o[0] == "startup":
             suite, cls, name = o[1], o[1], "Startup"
+        elif o[0] == "doctest":
+            # a doctest belongs to what it documents: everything before the last dot of its name
+            suite = cls = o[1].rpartition(".")[0]
+            name = o[1].rpartition(".")[2]
         else:
             suite = cls = o[1] + "." + o[2]
             name = o[3]
@@ -170,8 +179,12 @@ def gen_hist(rng):
         k = rng.random()
         kind = rng.choice(["success", "failure", "error"])
         msg = gen_text(rng, long=rng.random() < 0.02)
-        if k < 0.15:
+        if k < 0.12:
             hist.append({"obj": ["startup", rng.choice(["broken.mod", "pkg.bad"])], "kind": "error", "msg": msg})
+        elif k < 0.22:
+            # a doctest: filed under everything before the last dot of its name
+            hist.append({"obj": ["doctest", rng.choice(["pkg.mod.func", "pkg.mod.Class.method", "other.helper", "pkg.mod",
+                                                         "toplevel", "pkg.mod.TestA"])], "kind": kind, "msg": msg})
         elif k < 0.45:
             if kind == "success":
                 kind = "failure"
